@@ -1410,7 +1410,7 @@ fn table_len(table: u8, lit_cells: usize) -> usize {
 /// MODE 0: DecoderState::new(p, size) ; MODE 1: dirty state (A = old lc+lp) then reset_state(p)
 /// with p.lc + p.lp == B. One universally quantified cell of one universally quantified table
 /// is made dirty before and inspected after.
-fn reset_equiv<const MODE: usize, const A: usize, const LC: u32, const LP: u32, const CELLS_A: usize>() {
+fn reset_equiv<const MODE: usize, const A: usize, const LC: u32, const LP: u32, const CELLS_A: usize, const FILL_OBSERVED: bool>() {
     let mut t = Tape::<64>::new();
     // lc and lp are concrete per instance (a symbolic lc+lp makes the table length, hence the
     // fill loop's trip count, symbolic for the symbolic-execution engine); pb is symbolic
@@ -1450,7 +1450,13 @@ fn reset_equiv<const MODE: usize, const A: usize, const LC: u32, const LP: u32, 
     vassert!(d.unpacked_size == size, "reset/new: unpacked size as given (kept by reset_state)");
     vassert!(vec2d_len(&d.literal_probs) == cells_b && vec2d_cols(&d.literal_probs) == 0x300, "reset/new: literal table has 0x300 << (lc+lp) cells");
     vassert!(d.partial_input_buf.position() == 0, "reset/new: no carried-over input");
-    if idx2 < table_len(table2, cells_b) {
+    if FILL_OBSERVED {
+        // Vec2D::fill is replaced by an observer (first and last cell carry the fill value)
+        vassert!(vec2d_cell(&d.literal_probs, 0) == 0x400 && vec2d_cell(&d.literal_probs, cells_b - 1) == 0x400, "reset: the kept literal table is refilled with 0x400");
+        if table2 != T_LIT && idx2 < table_len(table2, cells_b) {
+            vassert!(any_cell_value(&d, table2, idx2) == 0x400, "reset/new: every probability cell is 0x400");
+        }
+    } else if idx2 < table_len(table2, cells_b) {
         vassert!(any_cell_value(&d, table2, idx2) == 0x400, "reset/new: every probability cell is 0x400");
     }
     vcover!(table2 == T_LIT && idx2 == cells_b - 1, "last_literal_cell");
@@ -1465,7 +1471,7 @@ fn reset_equiv<const MODE: usize, const A: usize, const LC: u32, const LP: u32, 
 #[cfg_attr(kani, kani::stub(std::fmt::format, crate::verif_common::stub_format))]
 #[cfg_attr(kani, kani::stub(std::io::Error::is_interrupted, crate::verif_common::stub_not_interrupted))]
 pub fn new_state_lclp0() {
-    reset_equiv::<0, 0, 0, 0, 0>()
+    reset_equiv::<0, 0, 0, 0, 0, false>()
 }
 
 //@ harness props=C14,C02 tier=quick unwind=8 unwindset=spec_fill:770,extend_with:770 mem_gb=10 timeout=1500
@@ -1473,8 +1479,9 @@ pub fn new_state_lclp0() {
 #[cfg_attr(kani, kani::proof)]
 #[cfg_attr(kani, kani::stub(std::fmt::format, crate::verif_common::stub_format))]
 #[cfg_attr(kani, kani::stub(std::io::Error::is_interrupted, crate::verif_common::stub_not_interrupted))]
+#[cfg_attr(kani, kani::stub(crate::util::vec2d::Vec2D::fill, crate::util::vec2d::verif_h::fill_observer))]
 pub fn reset_state_fill_0_0() {
-    reset_equiv::<1, 0, 0, 0, 768>()
+    reset_equiv::<1, 0, 0, 0, 768, true>()
 }
 
 //@ harness props=C14,C02 tier=quick unwind=8 unwindset=spec_fill:1540,extend_with:1540 mem_gb=10 timeout=1500
@@ -1482,24 +1489,27 @@ pub fn reset_state_fill_0_0() {
 #[cfg_attr(kani, kani::proof)]
 #[cfg_attr(kani, kani::stub(std::fmt::format, crate::verif_common::stub_format))]
 #[cfg_attr(kani, kani::stub(std::io::Error::is_interrupted, crate::verif_common::stub_not_interrupted))]
+#[cfg_attr(kani, kani::stub(crate::util::vec2d::Vec2D::fill, crate::util::vec2d::verif_h::fill_observer))]
 pub fn reset_state_realloc_0_1() {
-    reset_equiv::<1, 0, 0, 1, 768>()
+    reset_equiv::<1, 0, 0, 1, 768, false>()
 }
 
-//@ harness props=C14 tier=thorough unwind=8 unwindset=spec_fill:1540,extend_with:1540 mem_gb=12 timeout=2400
+//@ harness props=C14 tier=quick unwind=8 unwindset=spec_fill:1540,extend_with:1540 mem_gb=10 timeout=1500
 //@ bound: reset_state(p) with lc+lp = 0 on a dirty lc+lp = 1 state (reallocate to a smaller table)
 #[cfg_attr(kani, kani::proof)]
 #[cfg_attr(kani, kani::stub(std::fmt::format, crate::verif_common::stub_format))]
 #[cfg_attr(kani, kani::stub(std::io::Error::is_interrupted, crate::verif_common::stub_not_interrupted))]
+#[cfg_attr(kani, kani::stub(crate::util::vec2d::Vec2D::fill, crate::util::vec2d::verif_h::fill_observer))]
 pub fn reset_state_realloc_1_0() {
-    reset_equiv::<1, 1, 0, 0, 1536>()
+    reset_equiv::<1, 1, 0, 0, 1536, false>()
 }
 
-//@ harness props=C14 tier=thorough unwind=8 unwindset=spec_fill:1540,extend_with:1540 mem_gb=12 timeout=2400
+//@ harness props=C14 tier=quick unwind=8 unwindset=spec_fill:1540,extend_with:1540 mem_gb=10 timeout=1500
 //@ bound: reset_state(p) with lc+lp = 1 on a dirty lc+lp = 1 state (fill branch, 1536 cells)
 #[cfg_attr(kani, kani::proof)]
 #[cfg_attr(kani, kani::stub(std::fmt::format, crate::verif_common::stub_format))]
 #[cfg_attr(kani, kani::stub(std::io::Error::is_interrupted, crate::verif_common::stub_not_interrupted))]
+#[cfg_attr(kani, kani::stub(crate::util::vec2d::Vec2D::fill, crate::util::vec2d::verif_h::fill_observer))]
 pub fn reset_state_fill_1_1() {
-    reset_equiv::<1, 1, 1, 0, 1536>()
+    reset_equiv::<1, 1, 1, 0, 1536, true>()
 }
